@@ -137,7 +137,11 @@ func c06RealJobStamp(v *filein.VerifC06, path, link string, op int, started bool
 		}
 		b.WriteString("  streams:\n")
 		for i, o := range offs {
-			fmt.Fprintf(&b, "    s%d: %d\n", i, o)
+			name := fmt.Sprintf("s%d", i)
+			if c06StreamNames != nil { // streams.go: the stream names of the case
+				name = c06StreamNames[i]
+			}
+			fmt.Fprintf(&b, "    %s: %d\n", name, o)
 		}
 		loaded, err = c06ParseOffsets(*(*unsafe.Pointer)(fieldPtr(p.val, "offsetDB")), b.String())
 		if err != nil {
@@ -227,6 +231,9 @@ func c06ExpiredTick(tick func() int) int {
 		return res
 	}
 }
+
+// c06StreamNames: when set, the names under which c06RealJobStamp lists the stream offsets (default s0, s1, ...)
+var c06StreamNames []string
 
 func inodeOf(st os.FileInfo) uint64 {
 	return reflect.ValueOf(st.Sys()).Elem().FieldByName("Ino").Uint()
